@@ -403,3 +403,45 @@ def time_dependent_relations(tdgl, args, tmp):
         except Exception as e:
             rel.append({"name": "AppliedAtFrameTime", "what": tag + f"the real code raised {type(e).__name__}: {e}"[:200], "a": [0.0], "b": [1.0], "scale": 1.0})
     return {"rel": rel, "nsites": len(dev.mesh.sites), "frames": len(frames), "u": f"save_every={k}"}
+
+
+def z0_relations(tdgl, args, tmp):
+    """A film whose layer sits at z0 != 0 (the harness passes z0 to Layer): the field and the potential of the solution the solver
+    returns AND of the solution loaded back with Solution.from_hdf5 must be those of sheet currents at z = z0 (direct SI sums)."""
+    import numpy as np
+    from tdgl.geometry import box
+
+    z0 = args.get("z0", 0.7)
+    layer = tdgl.Layer(coherence_length=0.8, london_lambda=1.6, thickness=0.1, gamma=10.0, z0=z0)
+    dev = tdgl.Device("film_z0", layer=layer, film=tdgl.Polygon("film", points=box(5.0, 3.0, points=40)), length_units="um")
+    dev.make_mesh(max_edge_length=0.9, smooth=0)
+    work = tempfile.mkdtemp(prefix="z0", dir=tmp)
+    dt = 2.0 ** -6
+    opt = tdgl.SolverOptions(solve_time=10 * dt - dt / 2, dt_init=dt, adaptive=False, save_every=5, progress_interval=10 ** 9, pause_on_interrupt=False,
+                             output_file=os.path.join(work, "z0.h5"), field_units="mT", current_units="uA")
+    sol = tdgl.solve(dev, opt, applied_vector_potential=0.9)
+    loaded = tdgl.Solution.from_hdf5(sol.path)
+    m = lambda q: np.asarray(q.magnitude if hasattr(q, "magnitude") else q)
+    pos = np.array([[0.3, 0.2, 1.3], [-1.0, 0.7, 0.2], [2.0, -1.0, -0.4], [4.0, 3.0, 2.0], [0.2, 0.1, 0.0]])      # z relative to the lab, not to the film
+    xi = 0.8e-6
+    pts = np.concatenate([dev.mesh.sites * xi, z0 * 1e-6 * np.ones((len(dev.mesh.sites), 1))], axis=1)             # the sheet lies at z = z0
+    ar = dev.mesh.areas * xi ** 2
+    ev_m = pos * 1e-6
+    rel = []
+    for who, S in (("returned by solve", sol), ("loaded with Solution.from_hdf5", loaded)):
+        tag = f"[layer z0 = {z0} um, solution {who}] "
+        try:
+            Js = S.supercurrent_density.to("A / m").magnitude
+            Jn = S.normal_current_density.to("A / m").magnitude
+            bv = m(S.field_at_position(pos, vector=True)) * 1e-3
+            bz = m(S.field_at_position(pos[:, :2], zs=pos[:, 2], vector=False)) * 1e-3
+            ref = ref_biot_savart(np, ev_m, pts, Js + Jn, ar)
+            A = S.vector_potential_at_position(pos, return_sum=False)
+            rel.append({"name": "MatchesDirectSum", "what": tag + "field_at_position(vector) vs direct Biot-Savart sum of a sheet at z0", "a": bv.reshape(-1).tolist(), "b": ref.reshape(-1).tolist(), "scale": None})
+            rel.append({"name": "MatchesDirectSum", "what": tag + "field_at_position(scalar, zs=) vs direct sum", "a": bz.reshape(-1).tolist(), "b": ref[:, 2].reshape(-1).tolist(), "scale": None})
+            rel.append({"name": "MatchesDirectSum", "what": tag + "vector potential of the supercurrent vs direct Coulomb sum of a sheet at z0",
+                        "a": (m(A["supercurrent_density"])[:, :2] * 1e-9).reshape(-1).tolist(), "b": ref_coulomb(np, ev_m, pts, Js, ar).reshape(-1).tolist(), "scale": None})
+            rel.append({"name": "MatchesDirectSum", "what": tag + "layer.z0 of the solution's device vs the z0 the harness passed", "a": [float(S.device.layer.z0)], "b": [z0], "scale": 1.0})
+        except Exception as e:
+            rel.append({"name": "MatchesDirectSum", "what": tag + f"the real code raised {type(e).__name__}: {e}"[:250], "a": [0.0], "b": [1.0], "scale": 1.0})
+    return {"rel": rel, "nsites": len(dev.mesh.sites), "frames": len(sol.times), "u": f"z0={z0}"}
